@@ -122,6 +122,7 @@ impl Table for Mcfg {
             v.push((format!("descending[{:#x}]", b0), vec![e(next.0, 0, next.1, next.2), first]));
             v.push((format!("interleaved[{:#x}]", b0), vec![first, e(0x8000_0000, 0, 0, 0xff), e(next.0, 0, next.1, next.2)]));
         }
+        v.push(("descending-bus-range".into(), vec![e(0xc000_0000, 0, 0x40, 0x3f), e(0xd000_0000, 0, 0xff, 0), e(0xe000_0000, 0, 7, 7)]));
         // the 4-override limit: segment travels in the base pattern; other-segment continuation uses base fill 1 (segment 0xffff)
         let f1 = |base: u64, sb: u64, eb: u64| Op { k: 0, shape: 0, fill: crate::fill::Fill::b(1).with(0, base).with(2, sb).with(3, eb) };
         v.push(("contiguous-other-segment".into(), vec![f1(0xc000_0000, 0, 0x1f), f1(0xc200_0000, 0x20, 0x3f), e(0xc400_0000, 0, 0x40, 0x5f)]));
